@@ -205,6 +205,20 @@ func fieldMutantsJPEG(b []byte, rng *Rand) []mutant {
 					}
 				}
 			}
+			// a frame header of ANOTHER kind with tiny dimensions in front of the real one, whose own
+			// dimensions are inflated: the first frame header of the stream then declares 1 sample
+			for _, mk := range []byte{0xC0, 0xC1, 0xC3, 0xF7, 0xC2} {
+				if mk == s.marker {
+					continue
+				}
+				pre := []byte{0xFF, mk, 0x00, 0x0B, 0x08, 0x00, 0x01, 0x00, 0x01, 0x01, 0x01, 0x11, 0x00}
+				c := append(append(clone(b[:s.off]), pre...), b[s.off:]...)
+				q := s.payload + len(pre)
+				if q+5 <= len(c) {
+					c[q+1], c[q+2], c[q+3], c[q+4] = 0xFF, 0x00, 0xFF, 0x00
+					out = append(out, mutant{c, "struct.foreign-sof"})
+				}
+			}
 			// change the SOF kind
 			for _, m := range []int{0xC0, 0xC1, 0xC2, 0xC3, 0xC5, 0xC9, 0xCB, 0xF7} {
 				setByte(b, s.payload-3, m, "field.sofkind", &out)
